@@ -246,3 +246,54 @@ class Reach(object):
 
 
 REACH = Reach()
+
+
+# --------------------------------------------------------------------------
+# line reach over the code under test (sys.monitoring LINE events; each location
+# reports once and is then disabled, so the cost is paid on first execution only)
+
+class LineReach(object):
+  TOOL = 4
+
+  def __init__(self):
+    self.lines = {}      # path relative to the repo root -> set of line numbers
+    self._prefix = None
+
+  def start(self):
+    mon = sys.monitoring
+    self._prefix = os.path.join(os.path.realpath(repo_root()), 'scales') + os.sep
+    try:
+      mon.use_tool_id(self.TOOL, 'verif-lines')
+    except ValueError:
+      return False
+    mon.register_callback(self.TOOL, mon.events.LINE, self._cb)
+    mon.set_events(self.TOOL, mon.events.LINE)
+    return True
+
+  def _cb(self, code, line):
+    fn = code.co_filename
+    if fn.startswith(self._prefix):
+      self.lines.setdefault(fn[len(self._prefix) - 7:], set()).add(line)
+    return sys.monitoring.DISABLE
+
+  def dump(self):
+    return {k: sorted(v) for k, v in self.lines.items()}
+
+
+LINES = LineReach()
+
+
+def executable_lines(path):
+  """Line numbers that carry code in a source file (from the compiled code objects;
+  module/class/def header lines and docstrings count as they do for the interpreter)."""
+  import inspect
+  with open(path, 'rb') as f:
+    top = compile(f.read(), path, 'exec')
+  out, todo = set(), [top]
+  while todo:
+    c = todo.pop()
+    for _s, _e, ln in c.co_lines():
+      if ln is not None and ln > 0:
+        out.add(ln)
+    todo.extend(k for k in c.co_consts if inspect.iscode(k))
+  return out
